@@ -58,11 +58,20 @@ func (x *XArray) Truthy() bool {
 
 // Render returns the canonical text representation
 func (x *XArray) Render() string {
-	parts := make([]string, x.Count())
+	b := &strings.Builder{}
+	x.renderTo(b)
+	return b.String()
+}
+
+func (x *XArray) renderTo(b *strings.Builder) {
+	b.WriteByte('[')
 	for i, v := range x.values() {
-		parts[i] = Render(v)
+		if i > 0 {
+			b.WriteString(", ")
+		}
+		renderTo(b, v)
 	}
-	return "[" + strings.Join(parts, ", ") + "]"
+	b.WriteByte(']')
 }
 
 // Format returns the pretty text representation
